@@ -137,7 +137,7 @@ func genConc(job *Job, prop string, seed, idx uint64) *RunOutcome {
 	}
 	// swarm: a third of the runs concentrate on predicate writers racing with
 	// updates that move documents between the predicates
-	weights := []int{4, 3, 7, 4, 2, 2, 1, 7, 3, 2, 1}
+	weights := []int{4, 3, 7, 4, 2, 2, 1, 7, 3, 4, 1}
 	if r.Chance(0.35) {
 		weights = []int{1, 6, 9, 5, 1, 1, 0, 5, 2, 1, 0}
 	}
@@ -429,6 +429,9 @@ type concClient struct {
 	// waitClose: the client's next operation is Close; closedNow: it has started closing
 	waitClose bool
 	closing   bool
+	// holdUntil: the client stays parked right after the end of its transaction until
+	// that many write transactions have been committed by others (scheduling policy)
+	holdUntil int
 }
 
 type concResult struct {
@@ -449,6 +452,8 @@ type concRun struct {
 	decided  []int
 	panicMsg string
 	shared   []*query.Query
+	// holdAfterTx: per-run policy, see concClient.holdUntil
+	holdAfterTx bool
 }
 
 func (cr *concRun) stamp() int64 {
@@ -463,6 +468,10 @@ func (cr *concRun) yield(k wrap.Kind, update bool) {
 		return // setup / teardown phase: single-threaded
 	}
 	c.pending, c.pendUpd, c.atCall = k, update, true
+	if k == wrap.KAfterTx && cr.holdAfterTx {
+		// let other clients commit twice while this one still works on what it read
+		c.holdUntil = cr.ctl.TotalWriteCommits + 2
+	}
 	cr.parked.signal()
 	c.turn.wait()
 	c.atCall = false
@@ -672,6 +681,7 @@ func runConc(rf *RunFile) *RunOutcome {
 	// swarm over scheduling policies: from frequent switches to long bursts in
 	// which whole operations nest inside another client's transaction
 	baseStay := []float64{0.3, 0.6, 0.6, 0.85, 0.95}[sr.Intn(5)]
+	cr.holdAfterTx = sr.Chance(0.3)
 	replaying := len(rf.Schedule) > 0
 	pos := 0
 	last := -1
@@ -683,11 +693,18 @@ func runConc(rf *RunFile) *RunOutcome {
 	defer watchdog.Stop()
 	steps := 0
 	for {
-		var cand []int
+		var cand, held []int
 		for _, c := range cr.clients {
 			if cr.runnable(c) {
+				if c.atCall && c.pending == wrap.KAfterTx && c.holdUntil > cr.ctl.TotalWriteCommits {
+					held = append(held, c.id)
+					continue
+				}
 				cand = append(cand, c.id)
 			}
+		}
+		if len(cand) == 0 {
+			cand = held // nobody else can run: release the held clients
 		}
 		if len(cand) == 0 {
 			for _, c := range cr.clients {
